@@ -246,13 +246,36 @@ func (lsys *LinkSystem) Store(lnkCtx LinkContext, lp datamodel.LinkPrototype, n 
 	if err != nil {
 		return nil, err
 	}
-	tee := io.MultiWriter(writer, hasher)
+	// Not every encoder reports an error from the writer it is given,
+	// so remember the first one ourselves: a block whose write failed must not be committed.
+	latch := &errLatchWriter{w: writer}
+	tee := io.MultiWriter(latch, hasher)
 	err = encoder(n, tee)
+	if err == nil {
+		err = latch.err
+	}
 	if err != nil {
 		return nil, err
 	}
 	lnk := lp.BuildLink(hasher.Sum(nil))
 	return lnk, commitFn(lnk)
+}
+
+// errLatchWriter passes writes through and keeps returning the first error it sees.
+type errLatchWriter struct {
+	w   io.Writer
+	err error
+}
+
+func (l *errLatchWriter) Write(p []byte) (int, error) {
+	if l.err != nil {
+		return 0, l.err
+	}
+	n, err := l.w.Write(p)
+	if err != nil {
+		l.err = err
+	}
+	return n, err
 }
 
 func (lsys *LinkSystem) MustStore(lnkCtx LinkContext, lp datamodel.LinkPrototype, n datamodel.Node) datamodel.Link {
